@@ -10,6 +10,7 @@
 From Coq Require Import String.
 From Coq Require Import List Bool Arith ZArith Lia.
 From CB Require Import Model.C19_Stack Model.C19_Spec Proofs.C19_Stack Proofs.C19_Spec.
+From CB Require Import Model.C19_Mirror Proofs.C19_Mirror.
 From CB Require Import Gen.C19.Tables.
 Import ListNotations.
 Open Scope nat_scope.
@@ -105,6 +106,44 @@ Definition C19_tables_domain_stmt : Prop :=
     ["EighthSphere"; "Hemisphere"; "RevolvedRing_3"; "RevolvedRing_4"; "RevolvedRing_5"; "RevolvedRing_6";
      "RevolvedRing_7"; "RevolvedRing_8"; "RevolvedRing_9"; "RevolvedRing_10"; "RevolvedRing_11"; "RevolvedRing_12"]%string.
 
+(** ** statements: core / shell of a round shape that was moved and mirrored (Model/C19_Mirror.v)
+
+    faces are objects (ids); the shape is lofted over the faces of sketch_1 (the first n of them its core),
+    [fresh f] is the face of sketch_2 above f; [run ts] applies any sequence of moves (translate / rotate /
+    scale) and mirrors (every operation mirrored, then inverted: bottom <-> top) *)
+
+(** in every state reached: core and shell by position partition the operations in order, each operation once;
+    the shell is exactly the operations that touch the outer surface, the core exactly those that do not;
+    the split by identity of the bottom face agrees as long as the number of mirrors is even *)
+Definition C19_core_shell_after_mirror_stmt : Prop :=
+  forall (ts : list step) (fresh : nat -> nat) (faces : list nat) (n : nat),
+    distinctb faces = true -> fresh_tops fresh faces = true ->
+    let sh := run ts (loft_shape fresh faces n) in
+    (core_by_position sh ++ shell_by_position sh = opers sh /\
+     NoDup (opers sh) /\
+     length (opers sh) = length faces /\
+     length (core_by_position sh) = Nat.min n (length faces) /\
+     shell_by_position sh = filter (touches_outer sh) (opers sh) /\
+     core_by_position sh = filter (fun o => negb (touches_outer sh o)) (opers sh) /\
+     (forall o, In o (opers sh) ->
+        (In o (shell_by_position sh) <-> touches_outer sh o = true) /\
+        (In o (core_by_position sh) <-> touches_outer sh o = false))) /\
+    (Nat.even (mirrors ts) = true -> core_by_identity sh = core_by_position sh).
+
+(** the split by identity of the bottom face is NOT geometric: after an odd number of mirrors it returns an
+    empty core, whatever the shape; witness: the miniature cylinder (4 core + 8 shell faces) mirrored once *)
+Definition C19_core_by_identity_refuted_stmt : Prop :=
+  ~ by_identity_geometric_stmt /\
+  (forall (ts : list step) (fresh : nat -> nat) (faces : list nat) (n : nat),
+     distinctb faces = true -> fresh_tops fresh faces = true -> Nat.even (mirrors ts) = false ->
+     let sh := run ts (loft_shape fresh faces n) in
+     core_by_identity sh = [] /\ length (core_by_position sh) = Nat.min n (length faces)) /\
+  (let sh := run [SMirror] mini_cylinder in
+   core_by_identity sh = [] /\ shell_by_identity sh = opers sh /\
+   core_by_position sh = [mkOper 12 0; mkOper 13 1; mkOper 14 2; mkOper 15 3] /\
+   length (shell_by_position sh) = 8 /\
+   filter (fun o => negb (touches_outer sh o)) (opers sh) = core_by_position sh).
+
 (** ** statements: delete / chop of an addressed operation *)
 
 (** deleting one operation of a depot without duplicates removes exactly its block: the blocks are the
@@ -183,6 +222,25 @@ Proof. finite_forall round_solids solid_ok. intros e He. apply solid_ok_spec. ex
 Theorem C19_tables_domain : C19_tables_domain_stmt.
 Proof. vm_compute. repeat split; reflexivity. Qed.
 
+Theorem C19_core_shell_after_mirror : C19_core_shell_after_mirror_stmt.
+Proof.
+  intros ts fresh faces n Hd Hf sh. split.
+  - exact (core_shell_after_mirror ts fresh faces n Hd Hf).
+  - intro He. exact (core_by_identity_even ts fresh faces n Hd Hf He).
+Qed.
+
+Theorem C19_core_by_identity_refuted : C19_core_by_identity_refuted_stmt.
+Proof.
+  destruct core_by_identity_refuted as [H1 H2].
+  split; [exact H1|]. split; [exact core_by_identity_odd | exact H2].
+Qed.
+
+(** the hypotheses are satisfiable: the miniature cylinder, one mirror *)
+Example C19_mirror_example :
+  distinctb mini_faces = true /\ fresh_tops mini_fresh mini_faces = true /\
+  Nat.even (mirrors [SMove; SMirror; SMirror]) = true /\ Nat.even (mirrors [SMirror]) = false.
+Proof. vm_compute. repeat split. Qed.
+
 Theorem C19_delete_exact : C19_delete_exact_stmt.
 Proof. intros A eqb Heq ops d Hnd Hin. exact (delete_exact eqb Heq ops d Hnd Hin). Qed.
 
@@ -220,6 +278,8 @@ Print Assumptions C19_core_shell_sketches.
 Print Assumptions C19_core_shell_shapes.
 Print Assumptions C19_core_shell_solids.
 Print Assumptions C19_tables_domain.
+Print Assumptions C19_core_shell_after_mirror.
+Print Assumptions C19_core_by_identity_refuted.
 Print Assumptions C19_delete_exact.
 Print Assumptions C19_delete_cell.
 Print Assumptions C19_chop_frame.
